@@ -10,6 +10,8 @@ import (
 	"math/big"
 
 	"github.com/youchainhq/go-youchain/common"
+	"github.com/youchainhq/go-youchain/consensus"
+	"github.com/youchainhq/go-youchain/core/types"
 )
 
 // VerifC01Choose is choose (sortition.go) with p computed exactly as
@@ -22,4 +24,10 @@ func VerifC01Choose(hash common.Hash, stake *big.Int, threshold uint64, totalSta
 // VerifC01ComputePriority is computePriority (sortition.go).
 func VerifC01ComputePriority(hash common.Hash, j int64) common.Hash {
 	return computePriority(hash, big.NewInt(j))
+}
+
+// VerifC01VerifyHeader is (*Server).verifyHeader (consensus.go) with an explicit
+// batch prefix, as VerifyHeaders calls it.
+func VerifC01VerifyHeader(s *Server, chain consensus.ChainReader, header *types.Header, parents []*types.Header, seal bool) error {
+	return s.verifyHeader(chain, header, parents, seal)
 }
